@@ -2954,16 +2954,25 @@ theorem run_sim {prog : Prog} (hs : loopsStructured prog = true) (hl : looksStru
 theorem live_zero (prog : Prog) (id : Nat) : live prog id 0 = false := by
   simp [live]
 
+/-- An attempt of the backtracker on a *reused* matcher state `st` (any loop slots whatsoever, groups
+cleared — what `BacktrackExecutor` has after `successful_match` or a failed attempt) corresponds to
+a fresh attempt of the PikeVM: at address 0 no loop slot is live. -/
+theorem attemptWith_sim {prog : Prog} (hs : loopsStructured prog = true) (hl : looksStructured prog = true)
+    (hsimple : simpleProg prog = true) {inp : Input} (hok : inpOK inp = true) (fuel pos : Nat)
+    (st : Bt.State) (hg : st.groups = (freshState prog 0).groups) (hsz : st.loops.size = prog.loops) :
+    OutSim prog none 0 (Bt.attemptWith prog inp fuel pos st) (Pk.attempt prog inp fuel pos) := by
+  have hrel : StRel prog (Pk.initState prog pos pos).ip st (Pk.initState prog pos pos) :=
+    ⟨by rw [hg]; rfl, by simp [Pk.initState, hsz], fun id h => by simp [Pk.initState, live_zero] at h⟩
+  have h := run_sim hs hl hsimple hok fuel fuel true st #[.exhausted] []
+    (Pk.initState prog pos pos) 0 0 0 none hrel (.bottom #[] _) (by omega) rfl
+    (by intro r hr; simp at hr; subst hr; rfl)
+  exact h
+
 /-- The initial configurations of `classicalbacktrack::verif_attempt` and `pikevm::verif_attempt`
 are related, hence so are the outcomes of the attempts (with the same tick budget). -/
 theorem attempt_sim {prog : Prog} (hs : loopsStructured prog = true) (hl : looksStructured prog = true)
     (hsimple : simpleProg prog = true) {inp : Input} (hok : inpOK inp = true) (fuel pos : Nat) :
-    OutSim prog none 0 (Bt.attempt prog inp fuel pos) (Pk.attempt prog inp fuel pos) := by
-  have hrel : StRel prog (Pk.initState prog pos pos).ip (freshState prog 0) (Pk.initState prog pos pos) :=
-    ⟨rfl, by simp [Pk.initState, freshState], fun id h => by simp [Pk.initState, live_zero] at h⟩
-  have h := run_sim hs hl hsimple hok fuel fuel true (freshState prog 0) #[.exhausted] []
-    (Pk.initState prog pos pos) 0 0 0 none hrel (.bottom #[] _) (by omega) rfl
-    (by intro r hr; simp at hr; subst hr; rfl)
-  exact h
+    OutSim prog none 0 (Bt.attempt prog inp fuel pos) (Pk.attempt prog inp fuel pos) :=
+  attemptWith_sim hs hl hsimple hok fuel pos (freshState prog 0) rfl (by simp [freshState])
 
 end Regress.VM.Sim
